@@ -145,7 +145,8 @@ class SynthDef(metaclass=MetaSynthDef):
         # callable interface
         # self._callable_args = None
 
-        self._build(func, rates or [], prepend or [])
+        self._build(
+            func, rates or [], [] if prepend is None else prepend)
 
     def _build(self, func, rates, prepend):
         with _libsc3.main._def_build_lock:
@@ -195,7 +196,7 @@ class SynthDef(metaclass=MetaSynthDef):
 
         if _libsc3.main._current_synthdef is not None:
             return _libsc3.main._current_synthdef._build_ugen_graph(
-                func, rates or [], prepend or [])
+                func, rates or [], [] if prepend is None else prepend)
         else:
             raise Exception(
                 'SynthDef wrap should be called inside '
